@@ -109,8 +109,8 @@ fn dirty(rng: &mut Rng) -> usize {
 
 pub fn total(tier: u8) -> usize {
     if tier == 0 {
-        // 8 + 8 pristine-replay probes and 26 three-way comparisons
-        42
+        // 8 + 8 + 2 pristine-replay probes and 26 three-way comparisons
+        44
     } else {
         240
     }
@@ -127,6 +127,10 @@ fn leak_probe_prog(i: usize) -> lit::Prog {
         0 => lit::Prog { nlocs: 2, pre: vec![], threads: vec![vec![], vec![f(Sc), ld(1, Rlx), ld(0, Rlx)], vec![st(0, 1, Rlx), st(1, 2, Rlx), f(Sc)]] },
         1 => lit::Prog { nlocs: 3, pre: vec![], threads: vec![vec![], vec![st(2, 5, Rlx), f(Sc), ld(1, Rlx), ld(0, Rlx)], vec![st(0, 1, Rlx), st(1, 2, Rlx), f(Sc), ld(2, Rlx)]] },
         2 => lit::Prog { nlocs: 2, pre: vec![], threads: vec![vec![f(Sc), ld(0, Rlx)], vec![st(0, 1, Rlx), f(Sc), ld(1, Rlx)], vec![st(1, 2, Rlx), f(Sc)]] },
+        // the main thread reads (possibly stale) values before and after it yields in an await loop: its yield bookkeeping
+        // decides which stores it may still read
+        4 => lit::Prog { nlocs: 2, pre: vec![], threads: vec![vec![ld(1, Rlx), Op::Await { loc: 0, ord: Rlx, spin_hint: false, min: 1, ann: None }, ld(1, Rlx)], vec![st(1, 5, Rlx), st(1, 6, Rlx), st(0, 1, Rlx)]] },
+        5 => lit::Prog { nlocs: 2, pre: vec![], threads: vec![vec![ld(1, Rlx), ld(1, Rlx), Op::Await { loc: 0, ord: Acq, spin_hint: true, min: 1, ann: None }], vec![st(1, 5, Rlx), st(0, 1, Rel)], vec![st(1, 7, Rlx)]] },
         _ => lit::Prog { nlocs: 2, pre: vec![], threads: vec![vec![], vec![f(Sc), ld(1, Acq), ld(0, Rlx)], vec![st(0, 1, Rlx), f(Sc), st(1, 2, Rel)], vec![f(Sc), ld(0, Rlx)]] },
     }
 }
@@ -137,13 +141,13 @@ fn leak_probe_prog(i: usize) -> lit::Prog {
 fn leak_probe(rec: &mut Rec, i: usize, seed: u64) {
     // probes 4..: the same with exploration controls used inside the iterations (their flags are per-iteration state too)
     let ctrl: u8 = match i {
-        0..=3 => 0,
+        0..=3 | 100.. => 0,
         4 => 4,
         5 => 3,
         6 => 5,
         _ => 8,
     };
-    let p = leak_probe_prog(i % 4);
+    let p = leak_probe_prog(if i >= 100 { i - 96 } else { i % 4 });
     rec.prog = format!("{}{}", if ctrl != 0 { format!("[control placement {}] ", ctrl) } else { String::new() }, p.s());
     rec.hash = fnv(&rec.prog);
     rec.extra = json!({"family": "iso"});
@@ -282,6 +286,11 @@ pub fn work(tier: u8, seed: u64, idx: usize) -> Rec {
     }
     if idx < 8 + N_SYNC_PROBES {
         sync_leak_probe(&mut rec, idx - 8, seed);
+        return rec;
+    }
+    if idx < 8 + N_SYNC_PROBES + 2 {
+        // litmus probes 4 and 5 (a main thread that yields), no control placement
+        leak_probe(&mut rec, 100 + idx - 8 - N_SYNC_PROBES, seed);
         return rec;
     }
     let (p, s) = progs(seed, idx);
